@@ -57,7 +57,7 @@ enum
 const VhKindSpec kKinds[K_COUNT] = {
     { "RUN", 8, 255, 65535, 65535, 65535 }, { "STREAM", 3, 255, 0, 0, 0 },      { "CAM", 5, 255, 65535, 65535, 65535 },
     { "PACE", 3, 255, 65535, 65535, 0 },    { "AVG", 2, 255, 255, 0, 0 },       { "DELAY", 2, 255, 255, 255, 0 },
-    { "RING", 2, 255, 255, 0, 0 },          { "FAULT", 2, 255, 255, 0, 0 },     { "CONFIGURE", 3, 0, 0, 0, 0 },
+    { "RING", 2, 255, 255, 0, 0 },          { "FAULT", 2, 255, 255, 1, 0 },     { "CONFIGURE", 3, 0, 0, 0, 0 },
     { "START", 4, 0, 0, 0, 0 },             { "STOP_DONE", 4, 0, 0, 0, 0 },     { "STOP_NOW", 2, 0, 0, 0, 0 },
     { "ABORT", 3, 0, 0, 0, 0 },             { "ABORT_OTHER", 2, 255, 0, 0, 0 }, { "TRIGGER", 3, 1, 0, 0, 0 },
     { "MAP", 5, 1, 0, 0, 0 },               { "UNMAP", 5, 1, 255, 0, 0 },       { "SLEEP", 3, 255, 0, 0, 0 },
@@ -1436,6 +1436,11 @@ vh_run(const VhTok* tape, size_t n, VhReport* rep)
                 break;
             }
             case K_FAULT:
+                if (t.c == 1) { // explicit form (systematic enumeration): site and index as given
+                    cur[s].fault_site = 1 + (t.a >> 1) % 4;
+                    cur[s].fault_index = t.b;
+                    break;
+                }
                 cur[s].fault_site = (t.a >> 1) % 8 == 0 ? 0 : 1 + (t.a >> 1) % 4;
                 if (cur[s].fault_site == 4 || cur[s].fault_site == 3)
                     cur[s].fault_site = (t.b & 0x80) ? cur[s].fault_site : 2; // start faults are rarer
